@@ -577,6 +577,10 @@ type c03Storage struct {
 
 	// wasFull records, per call, whether the database asked for everything.
 	wasFull []bool
+
+	// queue, if not empty, holds the responses of the next calls after the
+	// second one.
+	queue []*profiledb.StorageProfilesResponse
 }
 
 func (s *c03Storage) Profiles(
@@ -589,8 +593,20 @@ func (s *c03Storage) Profiles(
 	case 1:
 		return s.full, nil
 	case 2:
-		return s.partial, nil
+		if s.partial != nil {
+			return s.partial, nil
+		}
+
+		fallthrough
 	default:
+		// The backend call is where a synchronisation waits.
+		xsched.Yield("storage.Profiles")
+		if len(s.queue) > 0 {
+			resp, s.queue = s.queue[0], s.queue[1:]
+
+			return resp, nil
+		}
+
 		return &profiledb.StorageProfilesResponse{SyncTime: time.Unix(1_000_100+int64(s.calls), 0)}, nil
 	}
 }
@@ -601,6 +617,9 @@ func (s *c03Storage) CreateAutoDevice(
 ) (resp *profiledb.StorageCreateAutoDeviceResponse, err error) {
 	low := strings.ToLower(string(req.HumanID))
 	s.created = append(s.created, c03Created{ID: c03AutoNew, Profile: string(req.ProfileID), Human: low})
+
+	// The backend call is where a request that creates a device waits.
+	xsched.Yield("storage.CreateAutoDevice")
 
 	return &profiledb.StorageCreateAutoDeviceResponse{
 		Device: &agd.Device{
@@ -1011,6 +1030,7 @@ func c03Run(c c03Case) (o *c03Obs) {
 // (with its pool of agd.RequestInfo) and the recording next handler.
 type c03Stack struct {
 	cfg     c03Case
+	db      *profiledb.Default
 	st      *c03Storage
 	finder  *c03Finder
 	handler dnsserver.Handler
@@ -1033,7 +1053,7 @@ func c03SameStack(a, b c03Case) (ok bool) {
 func c03NewStack(c c03Case) (s *c03Stack) {
 	s = &c03Stack{cfg: c}
 	db, st := c03NewDB(c)
-	s.st = st
+	s.db, s.st = db, st
 
 	srv := &agd.Server{
 		Name:            "srv",
@@ -1119,6 +1139,13 @@ func (s *c03Stack) serve(c c03Case) (o *c03Obs) {
 	if !c03SameStack(s.cfg, c) {
 		vrt.Fatalf("request %s does not belong to the stack of %s", c03Describe(c), c03Describe(s.cfg))
 	}
+
+	return s.serveAny(c)
+}
+
+// serveAny is serve without the check that the settings part of c is the one
+// the stack was built for: only the request part of c is used.
+func (s *c03Stack) serveAny(c c03Case) (o *c03Obs) {
 	o = &c03Obs{}
 	rs := &c03ReqState{obs: o}
 	createdBefore := len(s.st.created)
